@@ -209,6 +209,18 @@ func ApplyFSFault(root string, tree []TreeEntry, f *FSFault) (restore func() err
 		err = os.WriteFile(p, fillBytes(0x1234567, 700), 0o600)
 	case "empty":
 		err = os.WriteFile(p, nil, 0o600)
+	case "replace":
+		var b []byte
+		if b, err = os.ReadFile(filepath.Join(KeysDir, f.KeyRef)); err == nil {
+			if err = os.WriteFile(p, b, 0o600); err == nil {
+				for _, e := range tree {
+					if e.Path == f.Path && e.MTime != 0 {
+						t := time.Unix(e.MTime, 0)
+						err = os.Chtimes(p, t, t)
+					}
+				}
+			}
+		}
 	case "unreadable":
 		// mode 000: opening (a file) or listing (a directory) is denied once
 		// the DAC capabilities are dropped (see WithoutFilePrivileges)
